@@ -7,6 +7,8 @@ import (
 	"time"
 
 	"github.com/scionproto/scion/pkg/addr"
+	"github.com/scionproto/scion/pkg/slayers/path/epic"
+	"github.com/scionproto/scion/pkg/slayers/path/scion"
 	"github.com/scionproto/scion/router"
 
 	"verif/mon"
@@ -130,7 +132,7 @@ func checkC01(r *mon.Run) {
 			c01Case(r, rng, s, i)
 		}
 	}
-	r.Require(int64(nStars*perStar), 60, "valid_accepted", "perturbed_rejected_scmp", "expired_rejected", "xover_second_hop_rejected")
+	r.Require(int64(nStars*perStar), 60, "valid_accepted", "perturbed_rejected_scmp", "expired_rejected", "xover_second_hop_rejected", "epic_wrapped")
 }
 
 func c01Case(r *mon.Run, rng *rand.Rand, s *rfix.Star, idx int) {
@@ -138,11 +140,24 @@ func c01Case(r *mon.Run, rng *rand.Rand, s *rfix.Star, idx int) {
 	now := time.Now()
 	sc := s.GenScenario(rng, shape, now.Unix())
 	ext := rng.IntN(4)
+	// EPIC wrapping where this router is neither penultimate nor last hop (there the
+	// hop validation fields decide, which is C13's subject): the embedded SCION path is
+	// processed as usual and the same MAC/expiry rules apply.
+	asEPIC := rng.IntN(4) == 0 && sc.Spec.Cur+1 < sc.Spec.NumHops()-2
 	mod := func(p *rfix.PktSpec) {
 		p.HBH = ext&1 != 0
 		p.E2E = ext&2 != 0
 		if rng.IntN(4) == 0 {
 			p.L4 = []int{rfix.L4TCP, rfix.L4SCMPEchoReq, rfix.L4Unknown, rfix.L4SCMPTraceReq}[rng.IntN(4)]
+		}
+		if asEPIC {
+			d := p.Path.(*scion.Decoded)
+			p.Path = &epic.Path{
+				PktID: epic.PktID{Timestamp: uint32(rng.IntN(1 << 30)), Counter: uint32(rng.IntN(1 << 30))},
+				PHVF:  []byte{1, 2, 3, 4}, LHVF: []byte{5, 6, 7, 8},
+				ScionPath: rfix.RawPath(d),
+			}
+			p.PathType = 3
 		}
 	}
 	// choose the perturbation
@@ -281,7 +296,10 @@ func c01Case(r *mon.Run, rng *rand.Rand, s *rfix.Star, idx int) {
 	if len(pclass) > 8 && pclass[:8] == "mac-bit-" {
 		pclass = "mac-bit"
 	}
-	r.Class(fmt.Sprintf("%s/%s/ext%d/%s/second=%v/%s", sc.Shape, ing, ext, pclass, second && p != nil, outcome))
+	r.Class(fmt.Sprintf("%s/%s/ext%d/epic=%v/%s/second=%v/%s", sc.Shape, ing, ext, asEPIC, pclass, second && p != nil, outcome))
+	if asEPIC {
+		r.Event("epic_wrapped")
+	}
 	if r.WantSample() && idx%997 == 0 {
 		r.Sample(witness(s, sc, pname, in, &res))
 	}
